@@ -168,7 +168,10 @@ Definition sign_one (sl : slot) (a : adata) (unsigned : list vidx) (x : sarg) : 
 
 (* createAttestations: bitlist of the committee size with the validator's bit set (SetBitAt beyond
    the length is a no-op), the duty's slot, the account's committee index, the data's root, source
-   and target; accounts with a zero signature are skipped *)
+   and target; accounts with a zero signature are skipped, and so are accounts whose committee
+   size exceeds maxValidatorsPerCommittee (no bitlist is allocated for such a duty) *)
+Definition max_committee : N := 2048.
+
 Definition make_att (d : duty) (a : adata) (x : sarg) (sg : sigval) : att :=
   {| at_len := sa_size x;
      at_bits := if sa_pos x <? sa_size x then [sa_pos x] else [];
@@ -179,7 +182,8 @@ Fixpoint create_atts (d : duty) (a : adata) (args : list sarg) (sigs : list (opt
   match args, sigs with
   | x :: args', sg :: sigs' =>
       match sg with
-      | Some s => make_att d a x s :: create_atts d a args' sigs'
+      | Some s => if sa_size x <=? max_committee then make_att d a x s :: create_atts d a args' sigs'
+                  else create_atts d a args' sigs'
       | None => create_atts d a args' sigs'
       end
   | _, _ => []
